@@ -174,6 +174,8 @@ def register(reg):
     register_interval_helpers(reg)
     register_other_nodes(reg)
     register_lazy_layer(reg)
+    register_vector_layer(reg)
+    register_dispatch(reg)
 
 
 # ------------------------------------------------------------------------------------------------
@@ -2121,4 +2123,1080 @@ def replay_operator_init(inputs, clause):
     want = [obj] + ops + [kws[n] for n in kwn]
     if not _same(list(node._dependencies), want):
         return f"dependencies {node._dependencies!r}, expected object, operands, keyword operands in order"
+    return None
+
+
+# ------------------------------------------------------------------------------------------------
+# (7) vector operator lifting (vectors.py): handlers, helpers, zero shortcuts, VectorOperatorDistribution
+
+VEC = "scenic.core.vectors"
+_cosf = z3.Function("cos", z3.RealSort(), z3.RealSort())
+_sinf = z3.Function("sin", z3.RealSort(), z3.RealSort())
+
+
+def sym_vector(eng, name, random=False, register=True):
+    """A Vector with symbolic real coordinates (random=True: the first coordinate is a random value)."""
+    from .common import make_vector
+
+    cs = [eng.fresh_real(f"{name}.{a}") for a in "xyz"]
+    if register:
+        for a, c in zip("xyz", cs):
+            eng.input_syms.append((f"{name}.{a}", C.Real(), c))
+    if random:
+        rc = PObj("RandomCoordinate", tag=f"{name}.x (random)")
+        rc.fields.update(_isLazy=True, _needsSampling=True, _needsLazyEval=False, _dependencies=(), _requiredProperties=())
+        v = make_vector(rc, cs[1], cs[2])
+        v.fields.update(_needsSampling=True, _isLazy=True, _dependencies=(rc,))
+    else:
+        v = make_vector(*cs)
+    v.tag = name
+    return v, cs
+
+
+def install_vector_model(reg):
+    """Vector is a collections.abc.Sequence: iteration and len go through coordinates; numpy.ndarray is an (empty) type."""
+    from pyvc.builtins_model import NativeModule
+    from .common import make_vector
+
+    vec_cls = repo_class(f"{VEC}:Vector")
+    prev = reg.iterate_fallback
+
+    def iterate_fb(I, v):
+        if isinstance(v, PObj) and v.cls is vec_cls:
+            return list(v.fields["coordinates"])
+        if prev is not None:
+            return prev(I, v)
+        from pyvc.values import PyvcError
+
+        raise PyvcError(f"iteration over {v!r} not modelled (line {I.lineno})")
+
+    reg.iterate_fallback = iterate_fb
+
+    class NdArray:  # no value of the model is a numpy array
+        pass
+
+    xm = getattr(reg, "extra_modules", None) or {}
+    xm["numpy"] = NativeModule("numpy", {"ndarray": NdArray})
+    reg.extra_modules = xm
+    reg.constructors[f"{VEC}:Vector"] = lambda I, cls, args, kwargs: make_vector(*(list(args) + [0] * (3 - len(args))))
+    reg.trust("vectors.Vector(x, y, z=0) at construction sites", "modelled as the record of its three coordinates (non-random); iteration/len of a Vector follow the Sequence protocol over `coordinates`")
+
+
+def _vec_class_decorated(names):
+    """Methods of vectors.Vector decorated with one of the given decorator names."""
+    m = extract.get_module(VEC)
+    cls = m.top.get("Vector")
+    out = []
+    for node in getattr(cls, "body", []):
+        if isinstance(node, ast.FunctionDef):
+            for d in node.decorator_list:
+                if isinstance(d, ast.Name) and d.id in names:
+                    out.append((node.name, d.id))
+    return out
+
+
+def register_vector_layer(reg):
+    install_vector_model(reg)
+    for cn in ("VectorOperatorDistribution", "VectorMethodDistribution"):
+        reg.constructors[f"{VEC}:{cn}"] = record_ctor
+    reg.constructors[f"{D}:MethodDistribution"] = record_ctor
+    reg.constructors[f"{D}:FunctionDistribution"] = record_ctor
+    vd_cls = repo_class(f"{VEC}:VectorDistribution")
+    da_cls = repo_class(f"{L}:DelayedArgument")
+
+    def random_vector_dist(tag):
+        o = PObj(vd_cls, tag=tag)
+        o.fields.update(_isLazy=True, _needsSampling=True, _needsLazyEval=False, _dependencies=(), _requiredProperties=())
+        o.fields["_conditioned"] = o
+        return o
+
+    def lazy_value(tag, props=("p",)):
+        o = PObj(da_cls, tag=tag)
+        o.fields.update(_isLazy=True, _needsSampling=False, _needsLazyEval=True, _dependencies=(), _requiredProperties=tuple(props))
+        return o
+
+    def all_zero(cs):
+        return sv_and(*[compare("==", c, 0) for c in cs])
+
+    def is_node(res, cn):
+        return isinstance(res, PObj) and getattr(res.cls, "name", None) == cn and "_ctor" in res.fields
+
+    def same_seq(got, want):
+        got = tuple(got) if isinstance(got, (tuple, list)) else tuple(getattr(got, "items", ()))
+        return len(got) == len(want) and all(a is b for a, b in zip(got, want))
+
+    # ---------------------------------------------------------------- makeVectorOperatorHandler
+    def setup_mvh(I, env):
+        eng = I.eng
+        zi = eng.choose(2, "zeroIdentity?") == 1
+        env.vars.update(op="__add__" if zi else "offsetRotated", zeroIdentity=zi)
+        eng.input_syms.append(("zeroIdentity", C.Const(None), zi))
+
+    def post_mvh(I, env, outcome):
+        eng = I.eng
+        name = "vectors.makeVectorOperatorHandler"
+        if outcome[0] != "return" or not isinstance(outcome[1], FuncVal):
+            eng.check(f"{name}#ensures.returns_a_handler", False)
+            return
+        zi, op = env.vars["zeroIdentity"], env.vars["op"]
+        self = random_vector_dist("X")
+        kind = eng.choose(5, "operand kind")
+        eng.input_syms.append(("operand", C.Const(None), ["Vector", "tuple", "list", "random vector", "two operands"][kind]))
+        cs = None
+        if kind == 0:
+            a0, cs = sym_vector(eng, "operand")
+            args = [a0]
+        elif kind in (1, 2):
+            cs = [eng.fresh_real(f"operand.{a}") for a in "xyz"]
+            for a, c in zip("xyz", cs):
+                eng.input_syms.append((f"operand.{a}", C.Real(), c))
+            args = [tuple(cs) if kind == 1 else PList(cs)]
+        elif kind == 3:
+            args = [random_vector_dist("operand")]
+        else:
+            if zi:
+                return
+            a0, cs0 = sym_vector(eng, "operand")
+            args = [eng.fresh_real("angle"), a0]
+        try:
+            res = I.call_value(outcome[1], [self] + args)
+        except SymRaise as sr:
+            eng.check(f"{name}#ensures.handler_accepts_every_operand_the_plain_operator_accepts", False, detail=repr(sr.exc))
+            return
+        if res is self:
+            ok = zi and cs is not None and len(args) == 1
+            eng.check(f"{name}#ensures.shortcut_only_for_a_zero_identity_operator_and_a_known_operand", ok)
+            if ok:
+                eng.check(f"{name}#ensures.shortcut_only_when_the_operand_is_the_zero_vector", all_zero(cs))
+            return
+        ok = is_node(res, "VectorOperatorDistribution")
+        eng.check(f"{name}#ensures.otherwise_builds_a_vector_operator_node", ok)
+        if ok:
+            c = res.fields["_ctor"]
+            eng.check(f"{name}#ensures.node_is_the_operator_on_self_with_the_operands_in_order", c["operator"] == op and c["obj"] is self and same_seq(c["operands"], args))
+
+    reg.add(C.Contract(f"{VEC}:makeVectorOperatorHandler", params=dict(op=C.Const(None), zeroIdentity=C.Const(None)), setup=setup_mvh, post=post_mvh, replay=replay_vector_handler, properties=("C05",)))
+
+    # ---------------------------------------------------------------- vectorOperator.helper
+    holder = {}
+
+    def closure_vo(I):
+        eng = I.eng
+        flags = [(False, False), (True, False), (False, True)][eng.choose(3, "preservesZero / zeroIdentity")]
+        calls = []
+        R = PObj("MethodResult", tag="method(self, *args)")
+        holder.update(flags=flags, calls=calls, R=R)
+        holder["method"] = recorder(calls, "method", R)
+        holder["helper"] = recorder(calls, "helper", PObj("HelperResult", tag="helper(self, *args in context)"))
+        return dict(method=holder["method"], op="theOperator", preservesZero=flags[0], zeroIdentity=flags[1], helper=holder["helper"])
+
+    def setup_vo(I, env):
+        eng = I.eng
+        reset_vic(I)
+        self_random = eng.choose(2, "self random?") == 1
+        self, scs = sym_vector(eng, "self", random=self_random)
+        kind = eng.choose(5, "operand kind")
+        names = ["Vector", "tuple", "random", "lazy", "scalar and Vector"]
+        acs = None
+        if kind == 0:
+            a0, acs = sym_vector(eng, "operand")
+            args = [a0]
+        elif kind == 1:
+            acs = [eng.fresh_real(f"operand.{a}") for a in "xyz"]
+            for a, c in zip("xyz", acs):
+                eng.input_syms.append((f"operand.{a}", C.Real(), c))
+            args = [tuple(acs)]
+        elif kind == 2:
+            args = [random_vector_dist("operand")]
+        elif kind == 3:
+            args = [lazy_value("operand")]
+        else:
+            a1, _ = sym_vector(eng, "operand", register=False)
+            args = [eng.fresh_real("angle"), a1]
+        env.vars["self"] = self
+        env.vars["args"] = tuple(args)
+        env.vars.update(_self_random=self_random, _scs=scs, _acs=acs, _kind=kind, _args=args)
+        eng.input_syms.append(("self_random", C.Const(None), self_random))
+        eng.input_syms.append(("operand", C.Const(None), names[kind]))
+        eng.input_syms.append(("preservesZero", C.Const(None), holder["flags"][0]))
+        eng.input_syms.append(("zeroIdentity", C.Const(None), holder["flags"][1]))
+
+    def post_vo(I, env, outcome):
+        eng = I.eng
+        name = "vectors.vectorOperator.helper"
+        if outcome[0] != "return":
+            return
+        v = env.vars
+        pz, zi = holder["flags"]
+        self, args, res, kind = v["self"], v["_args"], outcome[1], v["_kind"]
+        calls = holder["calls"]
+        if res is self:
+            by_self = pz and not v["_self_random"]
+            by_arg = zi and kind in (0, 1)
+            eng.check(f"{name}#ensures.shortcut_only_under_a_zero_rule_with_known_values", by_self or by_arg)
+            if by_self or by_arg:
+                goals = ([all_zero(v["_scs"])] if by_self else []) + ([all_zero(v["_acs"])] if by_arg else [])
+                eng.check(f"{name}#ensures.shortcut_only_when_self_resp_the_operand_is_the_zero_vector", sv_or(*goals))
+            eng.check(f"{name}#ensures.no_method_call_on_a_shortcut", len(calls) == 0)
+            return
+        if kind == 2:  # a random operand: a node standing for method(self, *args)
+            if v["_self_random"]:
+                ok = is_node(res, "VectorOperatorDistribution") and res.fields["_ctor"]["operator"] == "theOperator" and res.fields["_ctor"]["obj"] is self and same_seq(res.fields["_ctor"]["operands"], args)
+            else:
+                ok = is_node(res, "VectorMethodDistribution") and res.fields["_ctor"]["method"] is holder["method"] and res.fields["_ctor"]["obj"] is self and same_seq(res.fields["_ctor"]["args"], args) and len(res.fields["_ctor"]["kwargs"].keys) == 0
+            eng.check(f"{name}#ensures.random_operand_builds_a_node_for_the_method_on_self_and_the_operands_in_order", ok)
+            return
+        if kind == 3:  # a lazily evaluated operand: the operation applied, in the context, to self and the context values
+            ok = isinstance(res, PObj) and getattr(res.cls, "name", None) == "DelayedArgument" and isinstance(res.fields.get("value"), FuncVal)
+            eng.check(f"{name}#ensures.lazy_operand_builds_a_delayed_argument", ok)
+            if not ok:
+                return
+            ctx = PObj("Context", tag="context")
+            del calls[:]
+            try:
+                val = I.call_value(res.fields["value"], [ctx])
+            except SymRaise as sr:
+                eng.check(f"{name}#ensures.delayed_evaluation_does_not_raise", False, detail=repr(sr.exc))
+                return
+            hc = [c for c in calls if c[0] == "helper"]
+            want = [vic_of(I, a) for a in args]
+            got = hc[0][1] if len(hc) == 1 else ()
+            # self needs no lazy evaluation: passing it as it is or through valueInContext is the same value
+            self_ok = len(got) == len(want) + 1 and (got[0] is self or (vic_of(I, self) is not None and got[0] is vic_of(I, self)))
+            eng.check(f"{name}#ensures.delayed_evaluation_applies_the_operator_to_self_and_the_context_values_of_the_operands", len(hc) == 1 and self_ok and all(a is b for a, b in zip(got[1:], want)) and not hc[0][2])
+            eng.check(f"{name}#ensures.delayed_argument_requires_the_operands'_properties", sorted(res.fields.get("_requiredProperties", ())) == ["p"])
+            return
+        # all operands known
+        if v["_self_random"]:
+            ok = is_node(res, "VectorOperatorDistribution") and res.fields["_ctor"]["operator"] == "theOperator" and res.fields["_ctor"]["obj"] is self and same_seq(res.fields["_ctor"]["operands"], args)
+            eng.check(f"{name}#ensures.random_self_builds_a_node_for_the_operator_with_the_operands_in_order", ok)
+        else:
+            mc = [c for c in calls if c[0] == "method"]
+            eng.check(f"{name}#ensures.known_values_call_the_method_once_on_self_and_the_operands", res is holder["R"] and len(mc) == 1 and same_seq(mc[0][1], [self] + args) and not mc[0][2])
+
+    reg.add(
+        C.Contract(
+            f"{VEC}:vectorOperator.helper",
+            params=dict(self=C.Const(None), args=C.Const(None)),
+            closure_env=closure_vo,
+            setup=setup_vo,
+            post=post_vo,
+            inline=["makeDelayedFunctionCall", "DelayedArgument.__init__", "LazilyEvaluable.__init__"],
+            replay=replay_vector_operator_helper,
+            properties=("C05",),
+        )
+    )
+
+    # ---------------------------------------------------------------- scalarOperator.helper / vectorDistributionMethod.helper
+    def make_method_helper(target, short, node_cls, receiver_may_be_random):
+        h = {}
+
+        def closure(I):
+            calls = []
+            h.update(calls=calls, R=PObj("MethodResult", tag="method(self, *args, **kwargs)"))
+            h["method"] = recorder(calls, "method", h["R"])
+            h["helper"] = recorder(calls, "helper", PObj("HelperResult", tag="helper in context"))
+            return dict(method=h["method"], helper=h["helper"], op="theOperator")
+
+        def setup(I, env):
+            eng = I.eng
+            reset_vic(I)
+            self_random = receiver_may_be_random and eng.choose(2, "self random?") == 1
+            if receiver_may_be_random:
+                self, _ = sym_vector(eng, "self", random=self_random, register=False)
+            else:
+                self = PObj("VectorField", tag="the (fixed) receiver")
+            kind = eng.choose(4, "argument kinds")
+            names = ["known", "random positional", "random keyword", "lazy"]
+            a0, _ = sym_vector(eng, "arg0", register=False)
+            args = [a0, random_vector_dist("arg1") if kind == 1 else (lazy_value("arg1") if kind == 3 else eng.fresh_real("arg1"))]
+            kw = random_vector_dist("kw") if kind == 2 else eng.fresh_real("kw")
+            env.vars["self"] = self
+            env.vars["args"] = tuple(args)
+            env.vars["steps"] = kw
+            env.vars.update(_self_random=self_random, _kind=kind, _args=args, _kw=kw)
+            eng.input_syms.append(("self_random", C.Const(None), self_random))
+            eng.input_syms.append(("arguments", C.Const(None), names[kind]))
+
+        def post(I, env, outcome):
+            eng = I.eng
+            if outcome[0] != "return":
+                return
+            v = env.vars
+            self, args, kw, kind, res = v["self"], v["_args"], v["_kw"], v["_kind"], outcome[1]
+            calls = h["calls"]
+            kw_ok = lambda d: isinstance(d, PDict) and list(d.keys) == ["steps"] and d.vals[0] is kw
+            if v["_self_random"] and kind != 3:
+                # the receiver itself is random: it must be among the sampled operands of the node (a MethodDistribution
+                # keeps its object unsampled), and the method must not run on the random value
+                ok = is_node(res, "FunctionDistribution") and res.fields["_ctor"]["func"] is h["method"] and same_seq(res.fields["_ctor"]["args"], [self] + args) and kw_ok(res.fields["_ctor"]["kwargs"])
+                ok = ok or (is_node(res, "OperatorDistribution") if False else ok)
+                eng.check(f"{short}#ensures.a_random_receiver_is_lifted_and_sampled_with_the_arguments", ok and len([c for c in calls if c[0] == "method"]) == 0)
+                return
+            if kind in (1, 2):
+                ok = is_node(res, node_cls)
+                eng.check(f"{short}#ensures.a_random_argument_builds_a_node_instead_of_calling_the_method", ok and len([c for c in calls if c[0] == "method"]) == 0)
+                if ok:
+                    c = res.fields["_ctor"]
+                    eng.check(f"{short}#ensures.node_is_the_method_on_self_with_arguments_in_order_and_keywords_by_name", c["method"] is h["method"] and c["obj"] is self and same_seq(c["args"], args) and kw_ok(c["kwargs"]))
+                return
+            if kind == 3:
+                if v["_self_random"]:
+                    return
+                ok = isinstance(res, PObj) and getattr(res.cls, "name", None) == "DelayedArgument" and isinstance(res.fields.get("value"), FuncVal)
+                eng.check(f"{short}#ensures.a_lazily_evaluated_argument_builds_a_delayed_argument", ok and len([c for c in calls if c[0] == "method"]) == 0)
+                if not ok:
+                    return
+                ctx = PObj("Context", tag="context")
+                del calls[:]
+                try:
+                    I.call_value(res.fields["value"], [ctx])
+                except SymRaise as sr:
+                    eng.check(f"{short}#ensures.delayed_evaluation_does_not_raise", False, detail=repr(sr.exc))
+                    return
+                hc = [c for c in calls if c[0] == "helper"]
+                want = [vic_of(I, self)] + [vic_of(I, a) for a in args]
+                eng.check(f"{short}#ensures.delayed_evaluation_applies_the_helper_to_self_and_the_context_values", len(hc) == 1 and same_seq(hc[0][1], want) and list(hc[0][2]) == ["steps"] and hc[0][2]["steps"] is vic_of(I, kw))
+                return
+            mc = [c for c in calls if c[0] == "method"]
+            eng.check(f"{short}#ensures.known_values_call_the_method_once_with_self_arguments_and_keywords", res is h["R"] and len(mc) == 1 and same_seq(mc[0][1], [self] + args) and list(mc[0][2]) == ["steps"] and mc[0][2]["steps"] is kw)
+
+        reg.add(C.Contract(target, params=dict(self=C.Const(None), args=C.Const(None), steps=C.Const(None)), kwargs={"steps": None}, closure_env=closure, setup=setup, post=post, inline=["makeDelayedFunctionCall", "DelayedArgument.__init__", "LazilyEvaluable.__init__"], replay=make_replay_method_helper(short), properties=("C05",)))
+
+    make_method_helper(f"{VEC}:scalarOperator.helper", "vectors.scalarOperator.helper", "MethodDistribution", True)
+    make_method_helper(f"{VEC}:vectorDistributionMethod.helper", "vectors.vectorDistributionMethod.helper", "VectorMethodDistribution", False)
+
+    # ---------------------------------------------------------------- zero shortcuts: the declared zero rules are identities of vector arithmetic
+    for meth, deco in _vec_class_decorated({"zeroIdentityVectorOperator", "zeroPreservingVectorOperator"}):
+        register_zero_rule_site(reg, meth, deco)
+
+    # ---------------------------------------------------------------- VectorOperatorDistribution / VectorMethodDistribution
+    def setup_vsg(I, env):
+        eng = I.eng
+        n = eng.choose(3, "number of operands")
+        calls, R = [], PObj("Result", tag="result")
+        first = PObj("SampledVector", tag="v(object)")
+        first.fields["theOperator"] = recorder(calls, "operation", R)
+        objk = PObj("RandomOperand", tag="object")
+        ks = [PObj("RandomOperand", tag=f"operand{i}") for i in range(n)]
+        vs = [PObj("SampledOperand", tag=f"v(operand{i})") for i in range(n)]
+        env.vars["self"].fields.update(operator="theOperator", object=objk, operands=tuple(ks))
+        env.vars["value"] = identity_map(I, [(objk, first)] + list(zip(ks, vs)))
+        env.vars.update(_calls=calls, _R=R, _vs=vs)
+        eng.input_syms.append(("n", C.Const(None), n))
+
+    def post_vsg(I, env, outcome):
+        eng = I.eng
+        name = "vectors.VectorOperatorDistribution.sampleGiven"
+        calls, vs = env.vars["_calls"], env.vars["_vs"]
+        eng.check(f"{name}#ensures.operator_applied_once_to_the_sampled_object_with_the_sampled_operands_in_order", outcome[0] == "return" and outcome[1] is env.vars["_R"] and len(calls) == 1 and same_seq(calls[0][1], vs) and not calls[0][2])
+
+    reg.add(C.Contract(f"{VEC}:VectorOperatorDistribution.sampleGiven", params=dict(self=C.Obj(f"{VEC}:VectorOperatorDistribution"), value=C.Const(None)), setup=setup_vsg, post=post_vsg, inline=["DefaultIdentityDict.__getitem__"], replay=replay_vector_node_sample, properties=("C05",)))
+
+    def setup_vei(I, env):
+        reset_vic(I)
+        objk = PObj("LazyOperand", tag="object")
+        ks = [PObj("LazyOperand", tag=f"operand{i}") for i in range(2)]
+        env.vars["self"].fields.update(operator="theOperator", object=objk, operands=tuple(ks))
+        env.vars["context"] = PObj("Context", tag="context")
+        env.vars.update(_obj=objk, _ks=ks)
+
+    def post_vei(I, env, outcome):
+        eng = I.eng
+        name = "vectors.VectorOperatorDistribution.evaluateInner"
+        if outcome[0] != "return":
+            return
+        res = outcome[1]
+        ok = is_node(res, "VectorOperatorDistribution")
+        eng.check(f"{name}#ensures.builds_a_node_of_the_same_class", ok)
+        if ok:
+            c = res.fields["_ctor"]
+            eng.check(f"{name}#ensures.same_operator_over_the_context_values_of_the_object_and_the_corresponding_operands", c["operator"] == "theOperator" and c["obj"] is vic_of(I, env.vars["_obj"]) and c["obj"] is not None and same_seq(c["operands"], [vic_of(I, k) for k in env.vars["_ks"]]) and all(ctx is env.vars["context"] for _, ctx in I.vic_log))
+
+    reg.add(C.Contract(f"{VEC}:VectorOperatorDistribution.evaluateInner", params=dict(self=C.Obj(f"{VEC}:VectorOperatorDistribution"), context=C.Const(None)), setup=setup_vei, post=post_vei, properties=("C05",)))
+
+    def setup_vmsg(I, env):
+        calls, R = [], PObj("Result", tag="result")
+        ks = [PObj("RandomOperand", tag=f"arg{i}") for i in range(2)]
+        vs = [PObj("SampledOperand", tag=f"v(arg{i})") for i in range(2)]
+        kk, kv = PObj("RandomOperand", tag="kw"), PObj("SampledOperand", tag="v(kw)")
+        fixed = PObj("FixedObject", tag="the object")
+        env.vars["self"].fields.update(method=recorder(calls, "method", R), object=fixed, arguments=tuple(ks), kwargs=PDict([("steps", kk)]))
+        env.vars["value"] = identity_map(I, list(zip(ks, vs)) + [(kk, kv)])
+        env.vars.update(_calls=calls, _R=R, _want=[fixed] + vs, _kv=kv)
+
+    def post_vmsg(I, env, outcome):
+        calls = env.vars["_calls"]
+        I.eng.check("vectors.VectorMethodDistribution.sampleGiven#ensures.method_called_once_on_the_object_with_sampled_arguments_in_order_and_keywords_by_name", outcome[0] == "return" and outcome[1] is env.vars["_R"] and len(calls) == 1 and same_seq(calls[0][1], env.vars["_want"]) and list(calls[0][2]) == ["steps"] and calls[0][2]["steps"] is env.vars["_kv"])
+
+    reg.add(C.Contract(f"{VEC}:VectorMethodDistribution.sampleGiven", params=dict(self=C.Obj(f"{VEC}:VectorMethodDistribution"), value=C.Const(None)), setup=setup_vmsg, post=post_vmsg, inline=["DefaultIdentityDict.__getitem__"], properties=("C05",)))
+
+
+def register_zero_rule_site(reg, meth, deco):
+    target = f"{VEC}:Vector.{meth}"
+    short = f"vectors.Vector.{meth}"
+    identity = deco == "zeroIdentityVectorOperator"
+
+    def setup(I, env):
+        eng = I.eng
+        from .common import make_vector
+
+        if identity:
+            v, cs = sym_vector(eng, "v")
+            form = eng.choose(2, "zero operand as a tuple?")
+            env.vars["self"] = v
+            env.vars["other"] = make_vector(0, 0, 0) if form == 0 else (0, 0, 0)
+            env.vars["_want"] = cs
+        else:
+            ang = eng.fresh_real("angle")
+            eng.input_syms.append(("angle", C.Real(), ang))
+            env.vars["self"] = make_vector(0, 0, 0)
+            env.vars["angleOrOrientation"] = ang
+            env.vars["_want"] = [0, 0, 0]
+
+    def post(I, env, outcome):
+        eng = I.eng
+        rule = "v_op_zero_vector_is_v" if identity else "op_of_the_zero_vector_is_the_zero_vector"
+        ok = outcome[0] == "return" and isinstance(outcome[1], PObj) and "coordinates" in outcome[1].fields
+        if not ok:
+            eng.check(f"{short}#requires_of_{deco}.{rule}", False, detail=repr(outcome[1]))
+            return
+        got = outcome[1].fields["coordinates"]
+        eng.check(f"{short}#requires_of_{deco}.{rule}", sv_and(*[compare("==", g, w) for g, w in zip(got, env.vars["_want"])]))
+
+    params = dict(self=C.Const(None), other=C.Const(None)) if identity else dict(self=C.Const(None), angleOrOrientation=C.Const(None))
+    env = {}
+    if not identity:
+        env = dict(cos=BuiltinFn("cos", lambda x: SV(_cosf(toz3(x, want_real=True)), True)), sin=BuiltinFn("sin", lambda x: SV(_sinf(toz3(x, want_real=True)), True)))
+    reg.add(
+        C.Contract(target, params=params, setup=setup, post=post, env=env, inline=["Vector.__getitem__", "Vector.x", "Vector.y", "Vector.z"], replay=make_replay_zero_rule(meth, identity), note="decoration site of a zero shortcut: the rule the shortcut relies on, on the method body itself" + ("" if identity else " (scalar angle; rotation by an Orientation fixes the origin: rotation-group axiom, C07)"), properties=("C05",)),
+        key=f"{target}[zero-rule]",
+    )
+
+
+def _real_vec(inputs, name):
+    from scenic.core.vectors import Vector
+
+    return Vector(*[float(inputs.get(f"{name}.{a}", 0.0)) for a in "xyz"])
+
+
+def replay_vector_handler(inputs, clause):
+    """A real VectorOperatorDistribution combined with the model's operand through the real handlers."""
+    from scenic.core.distributions import Range
+    from scenic.core.vectors import Vector, VectorOperatorDistribution
+
+    x = Vector(Range(0, 1), 2, 3) + Vector(1, 1, 1)  # a random vector (VectorOperatorDistribution)
+    kind = inputs.get("operand")
+    cs = [float(inputs.get(f"operand.{a}", 0.0)) for a in "xyz"]
+    operand = {"Vector": Vector(*cs), "tuple": tuple(cs), "list": list(cs)}.get(kind)
+    if operand is None or not inputs.get("zeroIdentity"):
+        return None
+    for opname in ("__add__", "__sub__", "__radd__"):
+        res = getattr(x, opname)(operand)  # an exception inside the repository is reported by the runner
+        zero = all(c == 0 for c in cs)
+        if res is x and not zero:
+            return f"X.{opname}({operand!r}) was simplified to X although the operand is not the zero vector"
+        if res is not x and not (isinstance(res, VectorOperatorDistribution) and res.operator == opname and res.object is x and len(res.operands) == 1 and res.operands[0] is operand):
+            return f"X.{opname}({operand!r}) built {res!r}"
+    return None
+
+
+def replay_vector_operator_helper(inputs, clause):
+    """Real Vector operators (helpers produced by vectorOperator) on known, random and lazily evaluated operands."""
+    from scenic.core.distributions import Range
+    from scenic.core.lazy_eval import DelayedArgument, LazilyEvaluable
+    from scenic.core.vectors import Vector
+
+    kind = inputs.get("operand")
+    self_random = bool(inputs.get("self_random"))
+    scs = [float(inputs.get(f"self.{a}", 0.0)) for a in "xyz"]
+    v = Vector(Range(0, 1), scs[1], scs[2]) if self_random else Vector(*scs)
+    if kind == "lazy":
+        if self_random:
+            return None
+        other = Vector(10.0, 20.0, 30.0)
+        d = DelayedArgument(("p",), lambda ctx: other, _internal=True)
+        for opname, want in (("__add__", v + other), ("__sub__", v - other), ("__rsub__", other - v), ("cross", v.cross(other))):
+            ctx = LazilyEvaluable.makeContext(p=1)  # a fresh context per operation (its cache is keyed by object identity)
+            delayed = getattr(v, opname)(d)
+            res = delayed.evaluateIn(ctx)  # an exception inside the repository is reported by the runner
+            if tuple(res) != tuple(want):
+                return f"Vector{tuple(v)}.{opname}(<lazy operand evaluating to {tuple(other)}>) evaluates to {res!r}; plain Python gives {want!r}"
+        return None
+    if kind in ("Vector", "tuple") and not self_random:
+        cs = [float(inputs.get(f"operand.{a}", 0.0)) for a in "xyz"]
+        operand = Vector(*cs) if kind == "Vector" else tuple(cs)
+        for opname, f in (("__add__", lambda a, b: a + b), ("__sub__", lambda a, b: a - b)):
+            res = getattr(v, opname)(operand)
+            want = tuple(f(a, b) for a, b in zip(scs, cs))
+            if tuple(res) != want:
+                return f"Vector{tuple(scs)}.{opname}({operand!r}) = {tuple(res)}, expected {want}"
+        if inputs.get("preservesZero"):
+            ang = 0.7
+            res = v.rotatedBy(ang)
+            import math
+
+            want = (math.cos(ang) * scs[0] - math.sin(ang) * scs[1], math.sin(ang) * scs[0] + math.cos(ang) * scs[1], scs[2])
+            if any(abs(a - b) > 1e-9 for a, b in zip(tuple(res), want)):
+                return f"Vector{tuple(scs)}.rotatedBy({ang}) = {tuple(res)}, expected {want}"
+    return None
+
+
+def make_replay_method_helper(short):
+    def replay(inputs, clause):
+        from scenic.core.distributions import Range, needsSampling
+        from scenic.core.lazy_eval import DelayedArgument, LazilyEvaluable
+        from scenic.core.vectors import Vector
+
+        self_random = bool(inputs.get("self_random"))
+        kind = inputs.get("arguments")
+        if "scalarOperator" not in short:
+            return None
+        plain_self, plain_other = Vector(0.5, 2, 3), Vector(4, -1, 2)
+        meths = ("distanceTo", "angleTo", "azimuthTo", "altitudeTo", "dot", "angleWith")
+        if kind == "lazy":
+            if self_random:
+                return None
+            d = DelayedArgument(("p",), lambda ctx: plain_other, _internal=True)
+            for meth in meths:
+                ctx = LazilyEvaluable.makeContext(p=1)
+                delayed = getattr(plain_self, meth)(d)  # an exception inside the repository is reported by the runner
+                res = delayed.evaluateIn(ctx) if hasattr(delayed, "evaluateIn") else delayed
+                want = getattr(plain_self, meth)(plain_other)
+                if not isinstance(res, (int, float)) or abs(res - want) > 1e-9:
+                    return f"Vector.{meth}(<lazy operand evaluating to {tuple(plain_other)}>) evaluates to {res!r}; plain Python gives {want}"
+            return None
+        v = Vector(Range(0.5, 0.5), 2, 3) if self_random else plain_self
+        other = Vector(Range(4, 4), -1, 2) if kind == "random positional" else plain_other
+        for meth in meths:
+            res = getattr(v, meth)(other)  # an exception inside the repository is reported by the runner
+            if self_random or kind == "random positional":
+                if not needsSampling(res):
+                    return f"Vector.{meth} of random values returned the non-random {res!r}"
+                res = res.sample()
+            want = getattr(plain_self, meth)(plain_other)
+            if abs(res - want) > 1e-9:
+                return f"Vector.{meth} = {res}, expected {want} (receiver random: {self_random}, operand: {kind})"
+        return None
+
+    return replay
+
+
+def make_replay_zero_rule(meth, identity):
+    def replay(inputs, clause):
+        from scenic.core.distributions import underlyingFunction
+        from scenic.core.vectors import Vector
+
+        raw = underlyingFunction(getattr(Vector, meth))
+        if identity:
+            v = _real_vec(inputs, "v")
+            for zero in (Vector(0, 0, 0), (0, 0, 0)):
+                res = raw(v, zero)
+                if tuple(res) != tuple(v):
+                    return f"Vector.{meth} is declared to have the zero vector as identity, but {tuple(v)}.{meth}({zero!r}) = {tuple(res)}"
+        else:
+            ang = float(inputs.get("angle", 0.3))
+            res = raw(Vector(0, 0, 0), ang)
+            if any(c != 0 for c in res):
+                return f"Vector.{meth} is declared to preserve the zero vector, but (0,0,0).{meth}({ang}) = {tuple(res)}"
+        return None
+
+    return replay
+
+
+def replay_vector_node_sample(inputs, clause):
+    from scenic.core.distributions import Distribution
+    from scenic.core.utils import DefaultIdentityDict
+    from scenic.core.vectors import VectorOperatorDistribution
+
+    class Key(Distribution):
+        def __init__(self):
+            super().__init__()
+
+    n = int(inputs.get("n", 2))
+    calls = []
+
+    class First:
+        def theOperator(self, *a, **k):
+            calls.append((a, k))
+            return "R"
+
+    objk, ks = Key(), [Key() for _ in range(n)]
+    m = DefaultIdentityDict()
+    m[objk] = First()
+    for i, k in enumerate(ks):
+        m[k] = f"v{i}"
+    res = VectorOperatorDistribution("theOperator", objk, tuple(ks)).sampleGiven(m)
+    want = tuple(f"v{i}" for i in range(n))
+    if res != "R" or len(calls) != 1 or tuple(calls[0][0]) != want or calls[0][1]:
+        return f"VectorOperatorDistribution.sampleGiven applied the operator as {calls!r} (result {res!r}); expected one call with {want!r}"
+    return None
+
+
+# ------------------------------------------------------------------------------------------------
+# (8) dispatch of distributionFunction / distributionMethod, toDistribution, toLazyValue, TypecheckedDistribution,
+#     Constructible._specify angle normalisation
+
+TS = "scenic.core.type_support"
+OT = "scenic.core.object_types"
+
+
+def register_dispatch(reg):
+    da_cls = repo_class(f"{L}:DelayedArgument")
+
+    def rnd(tag):
+        o = PObj("RandomValue", tag=tag)
+        o.fields.update(_isLazy=True, _needsSampling=True, _needsLazyEval=False, _dependencies=(), _requiredProperties=())
+        return o
+
+    def lazy(tag, props=("p",)):
+        o = PObj(da_cls, tag=tag)
+        o.fields.update(_isLazy=True, _needsSampling=False, _needsLazyEval=True, _dependencies=(), _requiredProperties=tuple(props))
+        return o
+
+    def is_node(res, cn):
+        return isinstance(res, PObj) and getattr(res.cls, "name", None) == cn and "_ctor" in res.fields
+
+    def seq(x):
+        return tuple(x) if isinstance(x, (tuple, list)) else tuple(getattr(x, "items", ()))
+
+    def same_seq(got, want):
+        got = seq(got)
+        return len(got) == len(want) and all(a is b for a, b in zip(got, want))
+
+    def delayed_ok(res):
+        return isinstance(res, PObj) and getattr(res.cls, "name", None) == "DelayedArgument" and isinstance(res.fields.get("value"), FuncVal)
+
+    KINDS = ["known", "random positional", "random keyword", "lazy positional", "tuple containing a random value"]
+
+    def make_dispatch(target, short, is_method):
+        h = {}
+
+        def closure(I):
+            calls = []
+            h.update(calls=calls, R=PObj("Result", tag="wrapped(*args, **kwargs)"), support=PObj("SupportFn", tag="support"), vt=PObj("Type", tag="valueType"))
+            h["wrapped"] = recorder(calls, "wrapped", h["R"])
+            h["helper"] = recorder(calls, "helper", PObj("HelperResult", tag="helper in context"))
+            if is_method:
+                h["identity"] = PObj("Identity", tag="identity element") if I.eng.choose(2, "identity declared?") == 1 else None
+                return dict(method=h["wrapped"], identity=h["identity"], helper=h["helper"])
+            return dict(wrapped=h["wrapped"], support=h["support"], valueType=h["vt"], helper=h["helper"])
+
+        def setup(I, env):
+            eng = I.eng
+            reset_vic(I)
+            kind = eng.choose(len(KINDS), "argument kinds")
+            a0 = PObj("Known", tag="arg0")
+            a1 = {1: rnd("arg1"), 3: lazy("arg1")}.get(kind, eng.fresh_real("arg1"))
+            inner = rnd("element")
+            if kind == 4:
+                a1 = (eng.fresh_real("elem0"), inner)
+            kw = rnd("kw") if kind == 2 else eng.fresh_real("kw")
+            args = [a0, a1]
+            if is_method:
+                me = PObj("Receiver", tag="self")
+                if h["identity"] is not None and eng.choose(2, "self is the identity?") == 1:
+                    me = h["identity"]
+                env.vars["self"] = me
+            env.vars["args"] = tuple(args)
+            env.vars["key"] = kw
+            env.vars.update(_kind=kind, _args=args, _kw=kw, _inner=inner)
+            eng.input_syms.append(("arguments", C.Const(None), KINDS[kind]))
+
+        def post(I, env, outcome):
+            eng = I.eng
+            if outcome[0] != "return":
+                return
+            v = env.vars
+            kind, args, kw, res, calls = v["_kind"], v["_args"], v["_kw"], outcome[1], h["calls"]
+            me = v.get("self") if is_method else None
+            kw_ok = lambda d: isinstance(d, PDict) and list(d.keys) == ["key"] and d.vals[0] is kw
+            if is_method and h["identity"] is not None and me is h["identity"]:
+                # identity * x == x: only for the declared identity element, and the result is the (lifted) first argument
+                eng.check(f"{short}#ensures.identity_receiver_returns_the_first_argument", (res is args[0]) and len(calls) == 0)
+                return
+            pre = [me] if is_method else []
+            if kind in (1, 2, 4):
+                cn = "MethodDistribution" if is_method else "FunctionDistribution"
+                ok = is_node(res, cn)
+                eng.check(f"{short}#ensures.a_random_argument_builds_a_node_instead_of_calling_the_function", ok and not [c for c in calls if c[0] == "wrapped"])
+                if not ok:
+                    return
+                c = res.fields["_ctor"]
+                got = seq(c["args"])
+                fn_ok = (c["method"] is h["wrapped"] and c["obj"] is me) if is_method else (c["func"] is h["wrapped"])
+                if kind == 4:
+                    t = got[1] if len(got) == 2 else None
+                    lifted = is_node(t, "TupleDistribution") and same_seq(t.fields["_ctor"]["coordinates"], list(args[1])) and t.fields["_ctor"]["builder"] is tuple
+                    eng.check(f"{short}#ensures.a_container_with_a_random_element_is_lifted_in_place", fn_ok and len(got) == 2 and got[0] is args[0] and lifted and kw_ok(c["kwargs"]))
+                else:
+                    eng.check(f"{short}#ensures.node_holds_the_function_and_the_arguments_in_place_keywords_by_name", fn_ok and same_seq(got, args) and kw_ok(c["kwargs"]))
+                if not is_method:
+                    eng.check(f"{short}#ensures.support_function_and_value_type_passed_through", c["support"] is h["support"] and c["valueType"] is h["vt"])
+                return
+            if kind == 3:
+                ok = delayed_ok(res)
+                eng.check(f"{short}#ensures.a_lazily_evaluated_argument_builds_a_delayed_argument", ok and not [c for c in calls if c[0] == "wrapped"])
+                if not ok:
+                    return
+                ctx = PObj("Context", tag="context")
+                del calls[:]
+                try:
+                    I.call_value(res.fields["value"], [ctx])
+                except SymRaise as sr:
+                    eng.check(f"{short}#ensures.delayed_evaluation_does_not_raise", False, detail=repr(sr.exc))
+                    return
+                hc = [c for c in calls if c[0] == "helper"]
+                got = hc[0][1] if len(hc) == 1 else ()
+                want = [vic_of(I, a) for a in args]
+                recv_ok = (not is_method) or (len(got) == 3 and (got[0] is me or got[0] is vic_of(I, me)))
+                eng.check(f"{short}#ensures.delayed_evaluation_reapplies_the_helper_to_the_context_values_in_place", len(hc) == 1 and recv_ok and same_seq(got[len(pre):], want) and list(hc[0][2]) == ["key"] and hc[0][2]["key"] is vic_of(I, kw))
+                return
+            mc = [c for c in calls if c[0] == "wrapped"]
+            eng.check(f"{short}#ensures.known_arguments_call_the_function_directly_once", res is h["R"] and len(mc) == 1 and same_seq(mc[0][1], pre + args) and list(mc[0][2]) == ["key"] and mc[0][2]["key"] is kw)
+
+        params = dict(args=C.Const(None), key=C.Const(None))
+        if is_method:
+            params = dict(self=C.Const(None), **params)
+        reg.add(C.Contract(target, params=params, kwargs={"key": None}, closure_env=closure, setup=setup, post=post, inline=["toDistribution", "makeDelayedFunctionCall", "DelayedArgument.__init__", "LazilyEvaluable.__init__"], replay=make_replay_dispatch(is_method), properties=("C05",)))
+
+    make_dispatch(f"{D}:distributionFunction.helper", "distributions.distributionFunction.helper", False)
+    make_dispatch(f"{D}:distributionMethod.helper", "distributions.distributionMethod.helper", True)
+
+    # ---------------------------------------------------------------- toDistribution
+    prev_ga = reg.getattr_fallback
+
+    def getattr_fb(I, obj, name):
+        if isinstance(obj, slice) and name in ("start", "stop", "step"):
+            return getattr(obj, name)
+        if obj is object and name == "__setattr__":
+            return BuiltinFn("object.__setattr__", lambda o, n, val: I.set_attr(o, n, val))
+        if prev_ga is not None:
+            return prev_ga(I, obj, name)
+        if obj is None or isinstance(obj, (SV, int, float, bool, Infinity)):
+            I.raise_("AttributeError", name)
+        from pyvc.values import PyvcError
+
+        raise PyvcError(f"attribute {name!r} of {obj!r} not modelled (line {I.lineno})")
+
+    reg.getattr_fallback = getattr_fb
+
+    TD_KINDS = ["constant", "random value", "tuple of constants", "tuple with a random element", "list with a random element", "nested tuple with a random element", "slice of constants", "slice with a random bound"]
+
+    def setup_td(I, env):
+        eng = I.eng
+        kind = eng.choose(len(TD_KINDS), "kind of value")
+        r, c0, c1 = rnd("random element"), eng.fresh_real("c0"), PObj("Known", tag="c1")
+        val = [c0, r, (c0, c1), (c0, r, c1), PList([r, c1]), (c1, (c0, r)), slice(c0, c1, None), slice(c0, r, None)][kind]
+        env.vars.update(val=val, _kind=kind, _r=r, _c0=c0, _c1=c1)
+        eng.input_syms.append(("kind", C.Const(None), TD_KINDS[kind]))
+
+    def post_td(I, env, outcome):
+        eng = I.eng
+        name = "distributions.toDistribution"
+        if outcome[0] != "return":
+            return
+        v = env.vars
+        kind, val, res, r, c0, c1 = v["_kind"], v["val"], outcome[1], v["_r"], v["_c0"], v["_c1"]
+        if kind in (0, 1, 2, 6):
+            eng.check(f"{name}#ensures.values_without_random_parts_and_random_values_themselves_are_returned_unchanged", res is val)
+        elif kind == 3:
+            eng.check(f"{name}#ensures.a_tuple_with_a_random_element_becomes_a_tuple_distribution_over_the_same_elements_in_order", is_node(res, "TupleDistribution") and same_seq(res.fields["_ctor"]["coordinates"], [c0, r, c1]) and res.fields["_ctor"]["builder"] is tuple)
+        elif kind == 4:
+            eng.check(f"{name}#ensures.a_list_with_a_random_element_becomes_a_list_distribution_over_the_same_elements_in_order", is_node(res, "TupleDistribution") and same_seq(res.fields["_ctor"]["coordinates"], [r, c1]) and res.fields["_ctor"]["builder"] is list)
+        elif kind == 5:
+            ok = is_node(res, "TupleDistribution") and len(seq(res.fields["_ctor"]["coordinates"])) == 2 and seq(res.fields["_ctor"]["coordinates"])[0] is c1
+            inner = seq(res.fields["_ctor"]["coordinates"])[1] if ok else None
+            eng.check(f"{name}#ensures.nested_containers_are_lifted_recursively", ok and is_node(inner, "TupleDistribution") and same_seq(inner.fields["_ctor"]["coordinates"], [c0, r]))
+        else:
+            eng.check(f"{name}#ensures.a_slice_with_a_random_bound_becomes_a_slice_distribution_over_the_same_parts", is_node(res, "SliceDistribution") and res.fields["_ctor"]["start"] is c0 and res.fields["_ctor"]["stop"] is r and res.fields["_ctor"]["step"] is None)
+
+    reg.add(C.Contract(f"{D}:toDistribution", params=dict(val=C.Const(None)), setup=setup_td, post=post_td, inline=["toDistribution"], replay=replay_to_distribution, properties=("C05",)), key=f"{D}:toDistribution[verify]")
+
+    # ---------------------------------------------------------------- toLazyValue
+    TL_KINDS = ["constant", "delayed argument", "tuple of constants", "tuple with a lazy element", "list with a lazy element"]
+
+    def setup_tl(I, env):
+        eng = I.eng
+        reset_vic(I)
+        kind = eng.choose(len(TL_KINDS), "kind of value")
+        d, c0, c1 = lazy("lazy element", ("q", "p")), eng.fresh_real("c0"), PObj("Known", tag="c1")
+        thing = [c1, d, (c0, c1), (c0, d, c1), PList([d, c1])][kind]
+        env.vars.update(thing=thing, _kind=kind, _d=d, _c0=c0, _c1=c1)
+        eng.input_syms.append(("kind", C.Const(None), TL_KINDS[kind]))
+
+    def post_tl(I, env, outcome):
+        eng = I.eng
+        name = "lazy_eval.toLazyValue"
+        if outcome[0] != "return":
+            return
+        v = env.vars
+        kind, thing, res, d, c0, c1 = v["_kind"], v["thing"], outcome[1], v["_d"], v["_c0"], v["_c1"]
+        if kind in (0, 1, 2):
+            eng.check(f"{name}#ensures.values_without_lazy_parts_and_delayed_arguments_themselves_are_returned_unchanged", res is thing)
+            return
+        ok = delayed_ok(res)
+        eng.check(f"{name}#ensures.a_container_with_a_lazy_element_becomes_a_delayed_argument", ok)
+        if not ok:
+            return
+        eng.check(f"{name}#ensures.it_requires_the_properties_of_its_lazy_elements", sorted(res.fields.get("_requiredProperties", ())) == ["p", "q"])
+        ctx = PObj("Context", tag="context")
+        try:
+            val = I.call_value(res.fields["value"], [ctx])
+        except SymRaise as sr:
+            eng.check(f"{name}#ensures.evaluation_does_not_raise", False, detail=repr(sr.exc))
+            return
+        elems = [c0, d, c1] if kind == 3 else [d, c1]
+        want = [vic_of(I, e) for e in elems]
+        got = list(val) if isinstance(val, (tuple, list)) else list(getattr(val, "items", []))
+        eng.check(f"{name}#ensures.evaluates_to_the_same_container_type_over_the_context_values_in_order", (isinstance(val, tuple) if kind == 3 else isinstance(val, (list, PList))) and len(got) == len(want) and all(a is b for a, b in zip(got, want)) and all(c is ctx for _, c in I.vic_log))
+
+    reg.add(C.Contract(f"{L}:toLazyValue", params=dict(thing=C.Const(None)), setup=setup_tl, post=post_tl, inline=["toLazyValue", "makeDelayedFunctionCall", "DelayedArgument.__init__", "LazilyEvaluable.__init__"], replay=replay_to_lazy_value, properties=("C05",), note="tuples and lists (dict values and namedtuples not modelled)"), key=f"{L}:toLazyValue[verify]")
+
+    # ---------------------------------------------------------------- TypecheckedDistribution.sampleGiven
+    vec_cls, ori_cls = repo_class(f"{VEC}:Vector"), repo_class(f"{VEC}:Orientation")
+    fail_cls = repo_class(f"{TS}:CoercionFailure")
+
+    def setup_tc(I, env):
+        eng = I.eng
+        mode = eng.choose(5, "mode")
+        names = ["type check passes", "type check fails", "coercion succeeds", "coercion impossible for the sampled type", "coercer refuses the value"]
+        from .common import make_vector
+
+        val = make_vector(1, 2, 3)
+        key = PObj("RandomOperand", tag="dist")
+        calls, coerced = [], PObj("Coerced", tag="coercer(val)")
+        self = env.vars["self"]
+        loc = PObj("Location", tag="saved location")
+        self.fields.update(_dist=key, _errorMessage="bad type", _loc=loc, _valueType=vec_cls, _coercer=None)
+        if mode in (0, 1):
+            self.fields["_checkType"] = vec_cls if mode == 0 else ori_cls
+        else:
+
+            def coercer(x):
+                calls.append(x)
+                if mode == 4:
+                    raise SymRaise(PExc(fail_cls, ("refused",)))
+                return coerced
+
+            self.fields["_coercer"] = BuiltinFn("coercer", coercer)
+            reg.models[f"{TS}:canCoerceType"] = lambda I_, a, b: mode != 3
+        env.vars["value"] = identity_map(I, [(key, val)])
+        env.vars.update(_mode=mode, _val=val, _calls=calls, _coerced=coerced, _loc=loc)
+        eng.input_syms.append(("mode", C.Const(None), names[mode]))
+
+    def post_tc(I, env, outcome):
+        eng = I.eng
+        name = "type_support.TypecheckedDistribution.sampleGiven"
+        v = env.vars
+        mode = v["_mode"]
+        if mode == 0:
+            eng.check(f"{name}#ensures.a_value_of_the_declared_type_is_returned_unchanged", outcome[0] == "return" and outcome[1] is v["_val"])
+        elif mode == 2:
+            eng.check(f"{name}#ensures.a_coercible_value_is_returned_coerced", outcome[0] == "return" and outcome[1] is v["_coerced"] and len(v["_calls"]) == 1 and v["_calls"][0] is v["_val"])
+        else:
+            ok = outcome[0] == "raise" and exc_name(outcome[1]) == "TypeError"
+            eng.check(f"{name}#raises.TypeError_when_the_sampled_value_cannot_be_given_the_declared_type", ok)
+            if ok:
+                eng.check(f"{name}#raises.TypeError_carries_the_location_of_the_expression", outcome[1].fields.get("_scenic_location") is v["_loc"])
+            if mode == 3:
+                eng.check(f"{name}#ensures.coercer_not_applied_to_a_value_of_an_uncoercible_type", len(v["_calls"]) == 0)
+
+    reg.add(C.Contract(f"{TS}:TypecheckedDistribution.sampleGiven", params=dict(self=C.Obj(f"{TS}:TypecheckedDistribution"), value=C.Const(None)), setup=setup_tc, post=post_tc, raises=[C.Raises("TypeError", mode="may")], inline=["DefaultIdentityDict.__getitem__"], replay=replay_typechecked, properties=("C05",)))
+
+    # ---------------------------------------------------------------- Constructible._specify: yaw / pitch / roll normalised
+    _norm = z3.Function("normalizeAngle", z3.RealSort(), z3.RealSort())
+    PROPS = ["yaw", "pitch", "roll", "width", "speed", "position", "someUserProperty"]
+
+    def setup_sp(I, env):
+        eng = I.eng
+        log = []
+
+        def normalize(I_, angle):
+            log.append(angle)
+            if isinstance(angle, PObj):
+                o = PObj("NormalizedAngle", tag=f"normalizeAngle({angle.tag})")
+                o.of = angle
+                return o
+            return SV(_norm(toz3(angle, want_real=True)), True)
+
+        reg.models[f"{G}:normalizeAngle"] = normalize
+        reg.models[f"{TS}:toScalar"] = lambda I_, x, msg=None: x
+        reg.models[f"{TS}:toVector"] = lambda I_, x, msg=None: x
+        prop = PROPS[eng.choose(len(PROPS), "property")]
+        value = rnd("random value") if eng.choose(2, "value random?") == 1 else eng.fresh_real("value")
+        ctx = PObj("Object", tag="context")
+        env.vars.update(cls=repo_class(f"{OT}:Constructible"), context=ctx, prop=prop, value=value, _log=log)
+        eng.input_syms.append(("prop", C.Const(None), prop))
+
+    def post_sp(I, env, outcome):
+        eng = I.eng
+        name = "object_types.Constructible._specify"
+        if outcome[0] != "return":
+            return
+        v = env.vars
+        prop, value, got = v["prop"], v["value"], v["context"].fields.get(v["prop"])
+        if prop in ("yaw", "pitch", "roll"):
+            if isinstance(value, PObj):
+                ok = isinstance(got, PObj) and getattr(got, "of", None) is value
+            else:
+                ok = isinstance(got, SV) and compare("==", got, SV(_norm(toz3(value, want_real=True)), True))
+            eng.check(f"{name}#ensures.yaw_pitch_roll_are_stored_normalised", ok)
+            eng.check(f"{name}#ensures.normalised_exactly_once", len(v["_log"]) == 1)
+        else:
+            eng.check(f"{name}#ensures.other_properties_are_stored_as_given", got is value and len(v["_log"]) == 0)
+
+    reg.add(C.Contract(f"{OT}:Constructible._specify", params=dict(cls=C.Const(None), context=C.Const(None), prop=C.Const(None), value=C.Const(None)), setup=setup_sp, post=post_sp, replay=replay_specify, properties=("C05",), note="normalizeAngle is an abstract function here; that it returns the equivalent angle in [-pi, pi] is its own contract (contracts/relations.py, C08); toScalar/toVector are identity stubs (type coercion)"))
+    reg.trust("type_support.toScalar / toVector / canCoerceType (inside _specify and TypecheckedDistribution)", "identity stubs resp. a chosen boolean: type coercion rules are not a carrier of C05")
+
+
+def make_replay_dispatch(is_method):
+    def replay(inputs, clause):
+        import scenic.core.distributions as d
+        from scenic.core.lazy_eval import DelayedArgument, LazilyEvaluable
+
+        calls = []
+
+        def f(*a, **k):
+            calls.append((a, k))
+            return "R"
+
+        kind = inputs.get("arguments")
+
+        class Recv:
+            pass
+
+        me = Recv()
+        if is_method:
+            h = d.distributionMethod(f)
+            call = lambda *a, **k: h(me, *a, **k)
+            pre = (me,)
+        else:
+            sup = lambda *a, **k: (0, 1)
+            h = d.distributionFunction(f, support=sup, valueType=float)
+            call = h
+            pre = ()
+        r = d.Range(0, 1)
+        if kind == "known":
+            res = call("a0", 2.0, key=3.0)
+            if res != "R" or calls != [(pre + ("a0", 2.0), {"key": 3.0})]:
+                return f"known arguments: result {res!r}, calls {calls!r}"
+        elif kind in ("random positional", "random keyword", "tuple containing a random value"):
+            a1 = r if kind == "random positional" else ((5.0, r) if kind.startswith("tuple") else 2.0)
+            kw = r if kind == "random keyword" else 3.0
+            res = call("a0", a1, key=kw)
+            want_cls = d.MethodDistribution if is_method else d.FunctionDistribution
+            if calls or type(res) is not want_cls:
+                return f"{kind}: built {type(res).__name__}, function called {len(calls)} times"
+            args = res.arguments
+            if args[0] != "a0" or (kind == "random positional" and args[1] is not r) or res.kwargs.get("key") is not kw and res.kwargs.get("key") != kw:
+                return f"{kind}: node arguments {args!r}, keywords {res.kwargs!r}"
+            if kind.startswith("tuple") and not (isinstance(args[1], d.TupleDistribution) and args[1].coordinates[1] is r and args[1].builder is tuple):
+                return f"a tuple with a random element was passed on as {args[1]!r}"
+            if not is_method and (res.support is not sup or res._valueType is not float):
+                return "support function / value type not passed through"
+            if is_method and res.object is not me:
+                return "receiver not recorded"
+        elif kind == "lazy positional":
+            da = DelayedArgument(("p",), lambda ctx: 7.0, _internal=True)
+            res = call("a0", da, key=3.0)
+            if calls or not isinstance(res, DelayedArgument):
+                return f"lazy argument: built {type(res).__name__}, function called {len(calls)} times"
+            val = res.evaluateIn(LazilyEvaluable.makeContext(p=1))
+            if val != "R" or calls != [(pre + ("a0", 7.0), {"key": 3.0})]:
+                return f"lazy argument: evaluation gave {val!r} with calls {calls!r}"
+        return None
+
+    return replay
+
+
+def replay_to_distribution(inputs, clause):
+    import scenic.core.distributions as d
+
+    r, c = d.Range(0, 1), object()
+    for val in (3, r, (1, c), slice(1, 2, None)):
+        if d.toDistribution(val) is not val:
+            return f"toDistribution({val!r}) is not the value itself"
+    t = d.toDistribution((1, r, c))
+    if not isinstance(t, d.TupleDistribution) or t.builder is not tuple or t.coordinates[0] != 1 or t.coordinates[1] is not r or t.coordinates[2] is not c:
+        return f"toDistribution((1, random, c)) = {t!r}"
+    t = d.toDistribution([r, c])
+    if not isinstance(t, d.TupleDistribution) or t.builder is not list or t.coordinates[0] is not r or t.coordinates[1] is not c:
+        return f"toDistribution([random, c]) = {t!r}"
+    t = d.toDistribution((c, (1, r)))
+    if not isinstance(t, d.TupleDistribution) or t.coordinates[0] is not c or not isinstance(t.coordinates[1], d.TupleDistribution) or t.coordinates[1].coordinates[1] is not r:
+        return f"toDistribution((c, (1, random))) = {t!r}"
+    s = d.toDistribution(slice(1, r, None))
+    if not isinstance(s, d.SliceDistribution) or s.start != 1 or s.stop is not r or s.step is not None:
+        return f"toDistribution(slice(1, random)) = {s!r}"
+    return None
+
+
+def replay_to_lazy_value(inputs, clause):
+    from scenic.core.lazy_eval import DelayedArgument, LazilyEvaluable, toLazyValue
+
+    da = DelayedArgument(("q", "p"), lambda ctx: "evaluated", _internal=True)
+    c = object()
+    for thing in (c, da, (1, c)):
+        if toLazyValue(thing) is not thing:
+            return f"toLazyValue({thing!r}) is not the value itself"
+    for thing, want in (((1, da, c), (1, "evaluated", c)), ([da, c], ["evaluated", c])):
+        res = toLazyValue(thing)
+        if not isinstance(res, DelayedArgument) or set(res._requiredProperties) != {"p", "q"}:
+            return f"toLazyValue({thing!r}) = {res!r}"
+        val = res.evaluateIn(LazilyEvaluable.makeContext(p=1, q=2))
+        if type(val) is not type(want) or list(val) != list(want):
+            return f"toLazyValue({thing!r}) evaluates to {val!r}, expected {want!r}"
+    return None
+
+
+def replay_typechecked(inputs, clause):
+    from scenic.core.distributions import Range
+    from scenic.core.type_support import CoercionFailure, TypecheckedDistribution
+    from scenic.core.utils import DefaultIdentityDict
+    from scenic.core.vectors import Orientation, Vector
+
+    key = Range(0, 1)
+    m = DefaultIdentityDict()
+    val = Vector(1, 2, 3)
+    m[key] = val
+    if TypecheckedDistribution(key, Vector, "bad").sampleGiven(m) is not val:
+        return "a value of the declared type was not returned unchanged"
+    try:
+        TypecheckedDistribution(key, Orientation, "bad").sampleGiven(m)
+        return "a Vector passed the type check for Orientation"
+    except TypeError:
+        pass
+    m[key] = (1, 2)
+    got = TypecheckedDistribution(key, Vector, "bad", coercer=Vector._coerce).sampleGiven(m)
+    if not isinstance(got, Vector) or tuple(got) != (1, 2, 0):
+        return f"the sampled tuple (1, 2) was coerced to {got!r}"
+    for bad in ((1, 2, 3, 4), 5.0):
+        m[key] = bad
+        try:
+            r = TypecheckedDistribution(key, Vector, "bad", coercer=Vector._coerce).sampleGiven(m)
+            return f"the sampled value {bad!r} was accepted as a Vector: {r!r}"
+        except TypeError:
+            pass
+    return None
+
+
+def replay_specify(inputs, clause):
+    import math
+    import types
+
+    from scenic.core.object_types import Constructible
+
+    for prop in ("yaw", "pitch", "roll"):
+        for ang in (0.3, 4.0, -7.5, 3 * math.pi):
+            ctx = types.SimpleNamespace()
+            Constructible._specify(ctx, prop, ang)
+            got = getattr(ctx, prop)
+            k = (ang - got) / math.tau
+            if not (-math.pi - 1e-9 <= got <= math.pi + 1e-9) or abs(k - round(k)) > 1e-9:
+                return f"_specify(..., {prop!r}, {ang}) stored {got}; expected the equivalent angle in [-pi, pi]"
+    ctx = types.SimpleNamespace()
+    Constructible._specify(ctx, "width", 4.0)
+    if ctx.width != 4.0:
+        return f"_specify(..., 'width', 4.0) stored {ctx.width!r}"
     return None
